@@ -29,6 +29,7 @@ type verifPublisher struct {
 	maxAttempts int
 	ids         []string // entries seen
 	failures    []int    // failed attempts per entry
+	mustBeDead  []bool   // a publish failed when the attempt count had reached MaxAttempts
 }
 
 func (p *verifPublisher) slot(id string) int {
@@ -37,14 +38,14 @@ func (p *verifPublisher) slot(id string) int {
 			return i
 		}
 	}
-	p.ids, p.failures = append(p.ids, id), append(p.failures, 0)
+	p.ids, p.failures, p.mustBeDead = append(p.ids, id), append(p.failures, 0), append(p.mustBeDead, false)
 	return len(p.ids) - 1
 }
 
 func (p *verifPublisher) exhausted() int {
 	n := 0
-	for _, f := range p.failures {
-		if p.maxAttempts > 0 && f >= p.maxAttempts {
+	for i, f := range p.failures {
+		if (p.maxAttempts > 0 && f >= p.maxAttempts) || p.mustBeDead[i] {
 			n++
 		}
 	}
@@ -54,12 +55,16 @@ func (p *verifPublisher) exhausted() int {
 func (p *verifPublisher) Publish(ctx contextT, entry *OutboxEntry) error {
 	i := p.slot(entry.ID.String())
 	verifAssert(p.maxAttempts == 0 || p.failures[i] < p.maxAttempts, "an entry was retried after exhausting the configured number of attempts")
+	verifAssert(!p.mustBeDead[i], "an entry that had exhausted its attempts (counting claims of dispatchers that died) was delivered again instead of being dead-lettered")
 	ok := true
 	if len(p.outcomes) > 0 {
 		ok, p.outcomes = p.outcomes[0], p.outcomes[1:]
 	}
 	if !ok {
 		p.failures[i]++
+		if p.maxAttempts > 0 && entry.Attempts >= p.maxAttempts {
+			p.mustBeDead[i] = true
+		}
 		return verifErrInjected
 	}
 	p.published = append(p.published, entry.ID.String())
@@ -198,7 +203,16 @@ func VerifC22Enqueue() {
 			config.QueueConfigurations = append(config.QueueConfigurations, rule)
 		}
 	}
+	// another bucket, whose rules match everything, to tell apart events
+	// attributed to the wrong bucket
+	otherConfig := &storage.BucketNotificationConfiguration{TopicConfigurations: []storage.NotificationConfigurationRule{
+		{DestinationARN: "arn:aws:sns:eu-central-1:1:other1", Events: []string{"s3:ObjectCreated:*"}},
+		{DestinationARN: "arn:aws:sns:eu-central-1:1:other2", Events: []string{"s3:ObjectCreated:*"}},
+		{DestinationARN: "arn:aws:sns:eu-central-1:1:other3", Events: []string{"s3:ObjectCreated:*"}}}}
 	inner.fnGetBucketNotificationConfiguration = func(ctx contextT, b storage.BucketName) (*storage.BucketNotificationConfiguration, error) {
+		if b.String() != "bucket" {
+			return otherConfig, nil
+		}
 		return config, nil
 	}
 	mutationFails := verifBool("mutation-fails")
@@ -249,7 +263,11 @@ func VerifC22Enqueue() {
 		_, err = m.DeleteObject(verifBg, bucket, key, nil)
 	case 2:
 		event = EventObjectCreatedCopy
-		_, err = m.CopyObject(verifBg, bucket, storage.MustNewObjectKey("src"), bucket, key, nil)
+		srcBucket := bucket
+		if verifBool("cross-bucket-copy") {
+			srcBucket = storage.MustNewBucketName("otherbucket")
+		}
+		_, err = m.CopyObject(verifBg, srcBucket, storage.MustNewObjectKey("src"), bucket, key, nil)
 	case 3:
 		event = EventObjectTaggingPut
 		err = m.PutObjectTagging(verifBg, bucket, key, map[string]string{"t": "1"}, nil)
@@ -301,6 +319,14 @@ func VerifC22Dispatch() {
 		}))
 	}
 	for r := 0; r < rounds; r++ {
+		if verifBool("dispatcher-dies-after-claim") {
+			// another dispatcher claims an entry (the attempt is counted) and
+			// dies; its lease expires
+			verifCover("crashed-claim")
+			_, _, err := m.claim(verifBg)
+			verifMust(err)
+			verifClockSeq += 100
+		}
 		m.dispatchAvailable(verifBg)
 		verifClockSeq += 10 // let back-off periods pass
 		total, pending, dead := m.verifCount()
@@ -319,7 +345,7 @@ func VerifC22Dispatch() {
 	}
 	if dead > 0 {
 		verifCover("dead-lettered")
-		verifAssert(maxAttempts > 0 && fails >= maxAttempts, "an entry was dead-lettered before exhausting the configured attempts")
+		verifAssert(maxAttempts > 0 && fails >= 1, "an entry was dead-lettered without a failed delivery")
 	}
 	_ = pending
 	// a dead-lettered entry is never published afterwards
